@@ -9,7 +9,7 @@ import datetime
 import itertools
 
 from vf import ref_types as R
-from vf.core import HarnessError, Tally
+from vf.core import vacuous, HarnessError, Tally
 
 LEVEL = "exploration"
 
@@ -398,16 +398,16 @@ def run(ctx):
     naive_check(tally)
 
     if tally.counts.get("rejects", 0) < 500:
-        raise HarnessError("vacuous: too few reject cases")
+        vacuous(tally, "vacuous: too few reject cases")
     for o in ("read-ok", "write-ok", "reject-ok", "naive-refused"):
         if o not in tally.outcomes:
-            raise HarnessError(f"vacuous: outcome {o} never observed")
+            vacuous(tally, f"vacuous: outcome {o} never observed")
     tally.sample({"read": "20240229235959.999[-5.30:Any Name]", "expected_ms": R.read_datetime("20240229235959.999[-5.30:Any Name]")})
     tally.sample({"reject": "20240230115959"})
     tally.sample({"write": "datetime(1999,12,31,23,59,59,999500, tz=-00:30) must denote 2000-01-01T00:30:00.000Z or ...59.999"})
     cov = {
-        "evaluations": tally.counts["evaluations"],
-        "distinct_nontrivial": tally.counts["evaluations"] - tally.counts.get("trivial", 0),
+        "evaluations": tally.counts.get("evaluations", 0),
+        "distinct_nontrivial": tally.counts.get("evaluations", 0) - tally.counts.get("trivial", 0),
         "rule": "read: {full notation, offset-without-ms} x every offset -720..+840 min x every spelling (sign/no sign, 1-2 digit hours, "
         ".mm/.00/none) x date core (10 boundary dates" + ("" if ctx.quick else " + 48 month edges of 2023/2024") + ") x 4 time/ms pairs x "
         "zone names rotating over {none,:EST,:Any Name}; plain notations x all dates x times x ms; rejects: every single-field corruption "
